@@ -20,9 +20,11 @@ CONVERTERS = [
     [mrec("go", "http://x/go:"), mrec("GO", "http://y/GO/", ["G.O"])],
     [mrec("a.b", "http://ab/", ["a-b", "a_b"], ["http://ab2/"])],
     [],   # a resolver over an empty converter knows no prefix: every request answers 422
+    # URI prefixes without an authority part; the CURIE prefix 'urn' is NOT registered although 'urn:lsid:' is a URI prefix
+    [mrec("lsid", "urn:lsid:", ["ls"]), mrec("t", "/terms/"), mrec("GO", "http://go/")],
 ]
-UNKNOWN = ["zz", "Go"]
-SEGMENTS = ["1", "ab", "10.1", "x_y", "a:b", "a:b:c", ":5", "1::2", "5:"]   # the last three: leading / doubled / trailing delimiter
+UNKNOWN = ["zz", "Go", "urn"]
+SEGMENTS = ["1", "ab", "10.1", "x_y", "a:b", "a:b:c", ":5", "1::2", "5:", "lsid:7"]   # the last three: leading / doubled / trailing delimiter
 DELIMS = [":", "/"]
 
 
@@ -39,7 +41,8 @@ def units(tier, seed):
     us = []
     for ci in range(len(CONVERTERS)):
         for d in DELIMS:
-            for ch in chunks(ids, 8 if tier == "quick" else 32):
+            mine = ids if ci < 3 else [i for i in ids if i.count("/") <= 1]   # the empty and the URN converter: <= 2 segments
+            for ch in chunks(mine, (8 if tier == "quick" else 32) if ci < 3 else 2):
                 us.append({"conv": ci, "delim": d, "ids": ch})
     us += [{"kind": "shared", "delim": d} for d in DELIMS]
     return us
@@ -48,11 +51,42 @@ def units(tier, seed):
 _APPS = {}
 
 
+class AsgiClient:
+    """Minimal in-process ASGI client (GET only). starlette's TestClient parses the Location header as a URL and
+    cannot represent e.g. 'urn:lsid:a/b'; here the response head is read as sent."""
+
+    class R:
+        def __init__(self, status, headers):
+            self.status_code, self.headers = status, headers
+
+    def __init__(self, app):
+        self.app = app
+
+    def get(self, path, follow_redirects=False):
+        import asyncio
+
+        out = {}
+        scope = {"type": "http", "asgi": {"version": "3.0"}, "http_version": "1.1", "method": "GET", "scheme": "http", "path": path,
+                 "raw_path": path.encode(), "query_string": b"", "headers": [(b"host", b"testserver")], "client": ("testclient", 50000),
+                 "server": ("testserver", 80), "root_path": ""}
+
+        async def receive():
+            return {"type": "http.request", "body": b"", "more_body": False}
+
+        async def send(msg):
+            if msg["type"] == "http.response.start":
+                out["status"] = msg["status"]
+                out["headers"] = {k.decode().lower(): v.decode() for k, v in msg["headers"]}
+
+        asyncio.run(self.app(scope, receive, send))
+        return AsgiClient.R(out["status"], out["headers"])
+
+
 def apps(ci, d):
     key = (ci, d)
     if key not in _APPS:
         from curies.resolver_service import get_fastapi_app, get_flask_app
-        from starlette.testclient import TestClient
+        TestClient = AsgiClient
 
         conv = Converter([to_record(r) for r in CONVERTERS[ci]], delimiter=d)
         # the same resolver mounted by hand from the blueprint / router entry points
@@ -64,13 +98,16 @@ def apps(ci, d):
         fapp.register_blueprint(get_flask_blueprint(conv))
         sapp = fastapi.FastAPI()
         sapp.include_router(get_fastapi_router(conv))
-        _APPS[key] = (conv, get_flask_app(conv).test_client(), TestClient(get_fastapi_app(conv)), fapp.test_client(), TestClient(sapp))
+        # ... and the apps mounted under a URL prefix through the documented pass-through keyword arguments
+        fpre = get_flask_app(conv, register_kwargs={"url_prefix": "/r"}).test_client()
+        spre = TestClient(get_fastapi_app(conv, include_kwargs={"prefix": "/r"}))
+        _APPS[key] = (conv, get_flask_app(conv).test_client(), TestClient(get_fastapi_app(conv)), fapp.test_client(), TestClient(sapp), fpre, spre)
     return _APPS[key]
 
 
 def check(ci, d, prefix, identifier, ctx=None):
     fails = []
-    conv, flask_client, fast_client, flask_mounted, fast_mounted = apps(ci, d)
+    conv, flask_client, fast_client, flask_mounted, fast_mounted, flask_prefixed, fast_prefixed = apps(ci, d)
     model = Model(CONVERTERS[ci], d)
     path = "/" + prefix + d + identifier
     want_loc = model.expand_pair(prefix, identifier) if d != "/" else model.expand(prefix + d + identifier)
@@ -89,10 +126,13 @@ def check(ci, d, prefix, identifier, ctx=None):
     if identifier.count("/") == 0 or want[0] == 422:
         r3 = flask_mounted.get(path)
         r4 = fast_mounted.get(path, follow_redirects=False)
-        extra = [("flask-blueprint", (r3.status_code, r3.headers.get("Location"))), ("fastapi-router", (r4.status_code, r4.headers.get("location")))]
+        r5 = flask_prefixed.get("/r" + path)
+        r6 = fast_prefixed.get("/r" + path, follow_redirects=False)
+        extra = [("flask-blueprint", (r3.status_code, r3.headers.get("Location"))), ("fastapi-router", (r4.status_code, r4.headers.get("location"))),
+                 ("flask-url_prefix", (r5.status_code, r5.headers.get("Location"))), ("fastapi-url_prefix", (r6.status_code, r6.headers.get("location")))]
         if ctx is not None:
             ctx.count("transitions", 2)
-            ctx.count("requests_to_hand_mounted_apps", 2)
+            ctx.count("requests_to_hand_mounted_apps", 4)
     for name, got in [("flask", got1), ("fastapi", got2)] + extra:
         if got != want:
             if want[0] == 302 and got[0] != 302:
@@ -125,7 +165,7 @@ def check_shared_process(d, ctx=None):
     """Several resolver apps live in one process, and an app's converter may change after requests were served:
     every answer must come from the app's own, current converter."""
     from curies.resolver_service import get_fastapi_app, get_flask_app
-    from starlette.testclient import TestClient
+    TestClient = AsgiClient
 
     fails = []
     convs = [Converter([to_record(r) for r in recs], delimiter=d) for recs in CONVERTERS[:3]]
@@ -191,14 +231,14 @@ def replay(case):
 def describe(tier):
     return {
         "level": "model_checking",
-        "rule": "4 converters (one empty; synonyms, case-variant prefixes, prefixes with '.', '-', '_') x delimiters ':' and '/' x Flask and FastAPI test "
-        f"clients (get_*_app, and for single-segment identifiers and unknown prefixes also apps mounted by hand from get_flask_blueprint / get_fastapi_router) x (every registered prefix and synonym + 2 unknown prefixes) x every identifier of 1..{3 if tier == 'quick' else 4} segments over "
+        "rule": "5 converters (one empty; one with URN-style and site-relative URI prefixes; synonyms, case-variant prefixes, prefixes with '.', '-', '_') x delimiters ':' and '/' x Flask and FastAPI test "
+        f"clients (get_*_app, and for single-segment identifiers and unknown prefixes also apps mounted by hand from get_flask_blueprint / get_fastapi_router and apps mounted under a URL prefix) x (every registered prefix and synonym + 2 unknown prefixes) x every identifier of 1..{3 if tier == 'quick' else 4} segments over "
         f"{SEGMENTS} joined by '/'; expected status/Location from the reference model; plus, per delimiter, the "
         "three apps side by side in one process queried alternately, before and after their live converters gain prefixes; distinct_nontrivial = redirected requests whose "
         "identifier contains the delimiter",
         "bounds": {"segments": 3 if tier == "quick" else 4, "segment_alphabet": SEGMENTS},
         "exhaustive": True,
-        "assumptions": ["URL-path-safe segments, no dot-segments, no empty segments (as quantified)", "in-process test clients (werkzeug / starlette TestClient) stand for the HTTP stack"],
+        "assumptions": ["URL-path-safe segments, no dot-segments, no empty segments (as quantified)", "in-process clients (werkzeug test client; a minimal raw ASGI client for FastAPI, because starlette TestClient cannot represent URN Locations) stand for the HTTP stack"],
     }
 
 
